@@ -21,18 +21,32 @@ package ovsdb
 //@ ensures c.max == nil ==> result == 1
 //@ ensures c.max != nil ==> result == *c.max
 
+// MonitorSelect (RFC 7047 4.1.5): a member that is absent selects that kind of change.
+//@ pred SelInitial(s MonitorSelect) := s.initial == nil || *s.initial
+//@ pred SelInsert(s MonitorSelect) := s.insert == nil || *s.insert
+//@ pred SelDelete(s MonitorSelect) := s.delete == nil || *s.delete
+//@ pred SelModify(s MonitorSelect) := s.modify == nil || *s.modify
+//@ func NewMonitorSelect
+//@ modifies nothing
+//@ ensures result != nil && fresh(result)
+//@ ensures SelInitial(*result) == initial && SelInsert(*result) == insert && SelDelete(*result) == delete && SelModify(*result) == modify
 //@ func NewDefaultMonitorSelect
 //@ modifies nothing
 //@ ensures result != nil && fresh(result)
+//@ ensures SelInitial(*result) && SelInsert(*result) && SelDelete(*result) && SelModify(*result)
 
 //@ func (MonitorSelect).Insert
 //@ pure
+//@ ensures result == SelInsert(m)
 //@ func (MonitorSelect).Modify
 //@ pure
+//@ ensures result == SelModify(m)
 //@ func (MonitorSelect).Delete
 //@ pure
+//@ ensures result == SelDelete(m)
 //@ func (MonitorSelect).Initial
 //@ pure
+//@ ensures result == SelInitial(m)
 //@ func (RowUpdate).Insert
 //@ pure
 //@ func (RowUpdate).Modify
